@@ -93,6 +93,7 @@ def lab_c(l):
 # a weight vector of ones being handed over with an INTEGER dtype (stored integer weights followed by fractional
 # ones: the weight vector must be promoted, never truncated)
 WVAL = {1: 1.0, 2: 2.0}
+SHUFFLED_PREDICT = False
 FRACTIONAL = {1: 1.0, 2: 2.5}
 PLAIN = {1: 1.0, 2: 2.0}
 
@@ -200,7 +201,14 @@ def observe(obj, n, freq, per_sample, X=None):
     methods = [("p", "predict"), ("pp", "predict_proba")] + ([("pf", "predict_freq")] if freq else [])
     recs = [{"p": None, "pp": None, "pf": dict(ABSENT)} for _ in range(n)]
     for key, name in methods:
-        groups = [[j] for j in range(n)] if per_sample else [list(range(n))]
+        # (half of the replays ask for all samples in descending order with the first one repeated at the end: an
+        #  index array addresses rows one by one - the result has one row per requested index, in that order)
+        allg = list(range(n)) if not SHUFFLED_PREDICT else (list(range(n - 1, -1, -1)) + [n - 1])
+        if per_sample:
+            # (whether a prediction is possible depends on the sample: the groups repeat ONE index)
+            groups = [[j, j] for j in range(n)] if SHUFFLED_PREDICT else [[j] for j in range(n)]
+        else:
+            groups = [allg]
         for g in groups:
             try:
                 arg = np.array(g, dtype=int) if X is None else X[g]
@@ -288,10 +296,11 @@ def init_post(cfg):
 
 def replay(arg):
     """worker: one behaviour x one classifier variant -> list of traces"""
-    global WVAL
+    global WVAL, SHUFFLED_PREDICT
     beh, variant, geom, xseed, tag, corrupt = arg[:6]
     wlist = len(arg) > 6 and arg[6]
     WVAL = FRACTIONAL if xseed % 3 == 2 else PLAIN
+    SHUFFLED_PREDICT = bool((xseed // 3) % 2)
     warnings.filterwarnings("ignore")
     cfg = beh["cfg"]
     n = cfg["n"]
@@ -368,6 +377,8 @@ def replay(arg):
                            "stored_weights_as": "list" if wlist else "ndarray",
                            "weight_values": {str(k): v for k, v in WVAL.items()},
                            "all_ones_weight_vectors_as_integers": WVAL is FRACTIONAL,
+                           "predictions_requested_for": "all indices descending, the last one twice"
+                           if SHUFFLED_PREDICT else "all indices ascending",
                            "calls": [h["op"] for h in beh["hist"]], "zero_based": "indices in calls are 1-based"}}
         traces.append(tr)
     return traces, n_eval
